@@ -1208,7 +1208,10 @@ func (e *Entry) ApplyDeviate(deviateOpts ...DeviateOpt) []error {
 					case DeviationAdd:
 						switch {
 						case deviatedNode.IsLeafList():
-							deviatedNode.Default = append(deviatedNode.Default, devSpec.Default...)
+							// The copies of a grouping's leaf-list share the
+							// array of their defaults: give append no spare
+							// capacity to write into.
+							deviatedNode.Default = append(deviatedNode.Default[:len(deviatedNode.Default):len(deviatedNode.Default)], devSpec.Default...)
 						case len(devSpec.Default) > 1:
 							appendErr(fmt.Errorf("%s: tried to add more than one default to a non-leaflist entry at deviation", Source(e.Node)))
 						case len(deviatedNode.Default) != 0:
